@@ -16,9 +16,9 @@ import (
 func init() { register("C19", checkC19) }
 
 type c19alt struct {
-	name    string
-	archs   []string // e.g. "amd64", "!amd64": a bracketed list
-	substv  bool
+	name   string
+	archs  []string // e.g. "amd64", "!amd64": a bracketed list
+	substv bool
 }
 
 func checkC19(p *Prog, rp *Report) {
@@ -267,7 +267,7 @@ func checkC19(p *Prog, rp *Report) {
 		edge.check(len(edgeProblems) == 0, "control.OrderDSCForBuild", pos, "one node per source, all nodes before the first edge", strings.Join(uniq(edgeProblems), "; "))
 		perm.check(len(permProblems) == 0, "control.OrderDSCForBuild", pos, "the result lists exactly the sorted nodes' values in the sorter's order", strings.Join(uniq(permProblems), "; "))
 		for _, tc := range []struct {
-			name          string
+			name         string
 			edgeF, sortF bool
 		}{{"AddEdge", true, false}, {"Sort", false, true}} {
 			outs, why := run("BuildDepends", tc.edgeF, tc.sortF)
